@@ -400,7 +400,7 @@ def run(run: Run):
     run.guard('C03.R3', r3, run, src, cg)
     run.guard('C03.R4', r4, run, src)
     from . import c09, c02
-    borrow(run, 'C03.R5', c09.r1, src)
+    borrow(run, 'C03.R5', c09.r1_any, src)
     borrow(run, 'C03.R6', c02.r2, src)
     borrow(run, 'C03.R6', c02.r4_r5, src)
     # closure: a sub-expression that is parsed but never descended into / emitted takes the cells it references out of the slice
